@@ -165,6 +165,10 @@ def shard(ctx):
         zero_rows.append(("SYR", None))
     cases = [(iso, dict(model.BASELINE_COUNTRY, NMONTHS=48, **({col: 10**6} if col else {}))) for iso, col in zero_rows]
     model.run_fixed(ctx, cases, lambda iso, o, k: (ctx.count(), ctx.event("zero_carcass_weight_row"), run_case(ctx, iso, o, "c05z_%s" % iso)))
+    # countries the source singles out by name (hand-written exceptions): the four families that steer the rounds, enumerated in the
+    # thorough tier (168 combinations each), a seeded sample of 6 each in the quick tier
+    model.run_fixed(ctx, model.named_country_cases(None if thorough else 6, seed=ctx.seed),
+                    lambda iso, o, k: (ctx.count(), ctx.event("named_country_run"), run_case(ctx, iso, o, "c05n_%s_%d" % (iso, k))))
     if thorough:
         for i, iso in enumerate(model.iso3_list()):
             if i % ctx.nshards != ctx.shard:
